@@ -203,7 +203,7 @@ Section Total.
   Qed.
 
   Lemma parse_config_total h text : home = Some h -> parse_config text = Ok (config_of (run (lines_of text) init)).
-  Proof. intros Hh. unfold ConfigText.parse_config. rewrite (parse_lines_run h _ _ Hh). reflexivity. Qed.
+  Proof. intros Hh. unfold ConfigText.parse_config, parse_of_lines. rewrite (parse_lines_run h _ _ Hh). reflexivity. Qed.
 
   Lemma run_app ls1 ls2 st : run (ls1 ++ ls2) st = run ls2 (run ls1 st).
   Proof. unfold run. apply fold_left_app. Qed.
